@@ -12,7 +12,11 @@
 //     (kinds c11-*, c08-*, c09-*), independent of the model.
 //
 // Actions: rel <v> (source gets an item to hand out; v >= 1000 = "marked": the scripted full() of
-// BatchFunc answers true on a batch whose last item is marked) | eof | err | next live | next dead |
+// BatchFunc answers true on a batch whose last item is marked) | eof | err [kind] (the source fails:
+// with its own error value; kind canceled = with context.Canceled itself, wrapcanceled = with
+// fmt.Errorf("…: %w", context.Canceled), deadline / wrapdeadline = the same for
+// context.DeadlineExceeded — all of them failures of the *source*: nobody has cancelled the consumer's
+// or Batch's own context) | next live | next dead |
 // cancel (the pending Next's context) | sleep <ms> | fullret (one gated full() call may return) |
 // fullopen (full() is no longer gated) | close.
 package c11
@@ -51,8 +55,39 @@ func (a Act) String() string {
 			return "next live"
 		}
 		return "next dead"
+	case "err":
+		if a.V > 0 && a.V < len(errKinds) {
+			return "err " + errKinds[a.V]
+		}
 	}
 	return a.Op
+}
+
+// errKinds: what the failing source returns (Act.V of an "err" action).
+var errKinds = []string{"", "canceled", "wrapcanceled", "deadline", "wrapdeadline"}
+
+func errKindOf(name string) int {
+	for i, k := range errKinds {
+		if k == name && i > 0 {
+			return i
+		}
+	}
+	return 0
+}
+
+// srcError builds the error value of a failing source.
+func srcError(kind int) error {
+	switch kind {
+	case 1:
+		return context.Canceled
+	case 2:
+		return fmt.Errorf("source: backend read: %w", context.Canceled)
+	case 3:
+		return context.DeadlineExceeded
+	case 4:
+		return fmt.Errorf("source: backend read: %w", context.DeadlineExceeded)
+	}
+	return errSrc
 }
 
 type Scn struct {
@@ -122,7 +157,15 @@ func parseScn(lines []string) (Scn, error) {
 				v = 1
 			}
 			s.Script = append(s.Script, Act{Op: "next", V: v})
-		case "eof", "err", "cancel", "fullret", "fullopen", "close":
+		case "err":
+			k := 0
+			if len(f) > 1 {
+				if k = errKindOf(f[1]); k == 0 {
+					return s, fmt.Errorf("bad line %q", l)
+				}
+			}
+			s.Script = append(s.Script, Act{Op: "err", V: k})
+		case "eof", "cancel", "fullret", "fullopen", "close":
 			s.Script = append(s.Script, Act{Op: f[0]})
 		default:
 			return s, fmt.Errorf("bad line %q", l)
@@ -155,11 +198,14 @@ type source struct {
 
 	handed     []handRec
 	term       string // "" | "eof" | "err": what Next returned last, if terminal
+	termErr    error  // the error value Next failed with (term == "err")
+	termKind   int    // its kind (index into errKinds)
 	termAt     int64
 	nextActive int
 	closeCalls int
-	nextAfterClose, nextDuringClose, closeDuringNext, nextOverlap bool
 	inClose    int
+
+	nextAfterClose, nextDuringClose, closeDuringNext, nextOverlap bool
 }
 
 func (s *source) ms() int64 { return int64(time.Since(s.t0) / time.Millisecond) }
@@ -200,7 +246,8 @@ func (s *source) Next(ctx context.Context) (int, error) {
 				return 0, stream.End
 			default:
 				s.term, s.termAt = "err", s.ms()
-				return 0, errSrc
+				s.termErr, s.termKind = srcError(ev.V), ev.V
+				return 0, s.termErr
 			}
 		}
 		s.mu.Unlock()
@@ -394,12 +441,22 @@ func bubble(scn Scn, tr *Trace) (closeReturned bool) {
 				err = fmt.Errorf("panic: %v", v)
 			}
 			r := callRes{t: src.ms(), started: started}
+			src.mu.Lock()
+			srcErr := src.termErr
+			src.mu.Unlock()
 			switch {
 			case err == nil:
 				r.kind, r.batch = "batch", append([]int{}, b...)
 			case err == stream.End:
 				r.kind = "end"
 			case err == errSrc:
+				r.kind = "err"
+			case err == context.Canceled && ctx.Err() != nil:
+				// this call's own context has expired: its error (a source that failed with
+				// context.Canceled itself is indistinguishable here; both arms of Next are ready)
+				r.kind = "ctx"
+			case srcErr != nil && (err == srcErr || errors.Is(err, srcErr)):
+				// the very error the source failed with (identity, or wrapping it)
 				r.kind = "err"
 			case err == context.Canceled:
 				r.kind = "ctx"
@@ -588,8 +645,9 @@ func monitorStep(scn Scn, tr *Trace, src *source, fulls []*fullCall, waitingLive
 		case "end":
 			tr.Features["end"] = true
 			if src.term == "err" {
-				tr.add("c08-error-replaced-by-end", "the source failed but Next reported the normal end")
-				tr.add("c11-error-replaced-by-end", "the source failed but Next reported the normal end")
+				what := fmt.Sprintf("the source failed with %q (neither the consumer's nor Batch's own context was cancelled) but Next reported the normal end", src.termErr)
+				tr.add("c08-error-replaced-by-end", what)
+				tr.add("c11-error-replaced-by-end", what)
 			} else if src.term == "" {
 				tr.add("c11-end-without-source-end", "Next reported End although the source has not ended")
 			}
@@ -602,6 +660,9 @@ func monitorStep(scn Scn, tr *Trace, src *source, fulls []*fullCall, waitingLive
 			}
 		case "err":
 			tr.Features["err"] = true
+			if src.termKind > 0 {
+				tr.Features["err-ctx-flavoured"] = true
+			}
 			if src.term != "err" {
 				tr.add("c08-spurious-error", "Next reported the source's error although the source has not failed")
 				tr.add("c11-spurious-error", "Next reported the source's error although the source has not failed")
@@ -747,6 +808,8 @@ func genScn(r *vlib.Rand, res *vlib.Result) Scn {
 		return Act{Op: "sleep", V: d}
 	}
 	rel := func() Act { return g.item(s.Mode == "func" && r.Chance(1, 3)) }
+	// a failing source: its own error value, or one of the context-flavoured ones
+	srcErr := func() Act { return Act{Op: "err", V: []int{0, 0, 1, 2, 3, 4, 1, 2}[r.Intn(8)]} }
 	n := r.Range(4, 22)
 	ended := false
 	add := func(a Act) { s.Script = append(s.Script, a) }
@@ -825,7 +888,7 @@ func genScn(r *vlib.Rand, res *vlib.Result) Scn {
 			}
 		case 5:
 			if r.Chance(1, 3) {
-				add(Act{Op: "err"})
+				add(srcErr())
 			} else {
 				add(Act{Op: "eof"})
 			}
@@ -841,7 +904,7 @@ func genScn(r *vlib.Rand, res *vlib.Result) Scn {
 	if mode >= 4 { // read to the end
 		if !ended {
 			if r.Chance(1, 4) {
-				add(Act{Op: "err"})
+				add(srcErr())
 			} else {
 				add(Act{Op: "eof"})
 			}
@@ -921,6 +984,10 @@ func hasKind(vs []Viol, k string) (Viol, bool) {
 	return Viol{}, false
 }
 
+// lim: at most 2 shrunk reports per kind and 12 per kind-prefix class (c11- / c08- / c09- /
+// correspondence): failures of one class never use up the room, or the time, of another.
+var lim = vlib.NewClassLimiter(2, 12)
+
 func record(t *testing.T, scn Scn, m *vlib.Model, repeats int, res *vlib.Result) {
 	o := checkScn(t, scn, m, repeats)
 	if o.modelError != nil && res.ModelMissing == "" {
@@ -938,6 +1005,9 @@ func record(t *testing.T, scn Scn, m *vlib.Model, repeats int, res *vlib.Result)
 	res.CountN("actions", len(scn.Script))
 	res.Case(strings.Join(scn.Lines(), ";"), nontrivial, scn.Lines())
 	for _, v := range o.viols {
+		if !lim.Admit("monitor", v.Kind) {
+			continue
+		}
 		small := scn
 		small.Script = vlib.Shrink(scn.Script, func(c []Act) bool {
 			s2 := scn
@@ -954,7 +1024,7 @@ func record(t *testing.T, scn Scn, m *vlib.Model, repeats int, res *vlib.Result)
 		res.Fail(vlib.Failure{Source: "monitor", Kind: v.Kind, Params: map[string]interface{}{"mode": scn.Mode},
 			What: what, Case: small.Lines()})
 	}
-	if o.corr != "" {
+	if o.corr != "" && lim.Admit("correspondence", "batch-model-differs") {
 		small := scn
 		small.Script = vlib.Shrink(scn.Script, func(c []Act) bool {
 			s2 := scn
@@ -1046,9 +1116,6 @@ func TestVerif(t *testing.T) {
 	for i := 0; i < max && time.Now().Before(deadline); i++ {
 		scn := genScn(r.Fork(), res)
 		record(t, scn, m, repeats, res)
-		if len(res.Failures) >= 12 {
-			break
-		}
 	}
 	if env.Thorough() && !raceEnabled {
 		res.Exhaustive = exhaustive(t, m, res, time.Now().Add(time.Duration(env.BudgetMs)*time.Millisecond))
@@ -1070,6 +1137,9 @@ func exhaustive(t *testing.T, m *vlib.Model, res *vlib.Result, deadline time.Tim
 			[]Act{{Op: "rel"}, {Op: "next", V: 1}, {Op: "next", V: 0}, {Op: "cancel"}, {Op: "sleep", V: 1}, {Op: "sleep", V: 3}, {Op: "eof"}, {Op: "err"}, {Op: "close"}}, 5},
 		{Scn{Mode: "func", MaxWait: 2, Gated: true},
 			[]Act{{Op: "rel"}, {Op: "rel", V: 1000}, {Op: "next", V: 1}, {Op: "cancel"}, {Op: "sleep", V: 1}, {Op: "sleep", V: 3}, {Op: "fullret"}, {Op: "eof"}, {Op: "close"}}, 5},
+		// a source that fails with context-flavoured errors of its own
+		{Scn{Mode: "batch", MaxWait: 2, Size: 2},
+			[]Act{{Op: "rel"}, {Op: "next", V: 1}, {Op: "next", V: 0}, {Op: "cancel"}, {Op: "sleep", V: 3}, {Op: "err", V: 1}, {Op: "err", V: 2}, {Op: "err", V: 3}, {Op: "close"}}, 4},
 	}
 	complete := true
 	n := 0
